@@ -260,6 +260,12 @@ def cases(tier, seed):
             for a in ([arm] if tier == "quick" else arms):
                 yield {"kind": "text", "text": a.replace("%s", st), "opts": [{}, {"initialize_vars": True}][m % 2]}
     yield {"kind": "text", "text": "10 INPUT A,B$:LINE INPUT C$:READ A,B$\n20 DATA 1,,X", "opts": {}}
+    # string variables and arrays whose names begin with a word BASIC09 reserves (PI, SQ, DO): still strings where a string
+    # is declared
+    for t in ('PLAY PI$', 'HDRAW SQ$(1)', 'A=INSTR(1,PI$,"D")', 'A$=STRING$(3,DO$)', 'A=VAL(DO$)', 'HPRINT(1,2),SQ$(1)', 'PI$="X":PRINT PI$;DO$(2)',
+              'A=INSTR(1,SQR$,PIX$)', 'LINE INPUT DO$', 'INPUT PI$,SQ$(1)', 'READ DO$\n20 DATA ,X'):
+        for o in ({}, {"initialize_vars": True, "default_str_storage": 80}):
+            yield {"kind": "text", "text": "10 " + t, "opts": o}
     # a string constant without its closing quote at the end of a line, in every place a string can end a line (most are
     # refused today; what is accepted - now or after a change - must call with a string where a string is declared)
     for t in ('PRINT "HELLO', '?"HI', 'PRINT@5,"X', 'PRINT A;"X', 'PRINT "A";"B', 'HPRINT(1,2),"HI', 'PLAY "CDE', 'HDRAW "BM10,10;R5', 'B$=A$+"X',
